@@ -20,17 +20,32 @@ from props import c02 as g
 from props.c02 import N, R, U, B, P, mkU, mkB, wire, parse_wire, cps, uncps, level, OPPREC, OPSYM, OPNAMES
 
 LEVEL_TEXT = (
-    'Lean theorem C01: for every well-formed operator expression (numeric literals incl. percent and '
-    'scientific form, cell references, parentheses, unary minus, the twelve binary operators) and every '
-    'placement of blanks, evaluating the rendered text with the statement-by-statement model of tokenizer.py, '
-    'parser.py and OperatorNode.eval yields denote e env, the value under Excel\'s precedence and left '
-    'associativity, with #DIV/0! for a zero divisor - unbounded, by induction on the expression. The model is '
-    'tied to the running code by this differential run through compiled models (every ordered operator pair '
-    'and triple exhaustively, deeper trees sampled).')
+    'Lean theorems (kernel-checked; axioms propext, Classical.choice, Quot.sound): Props.C01.C01_partial - for '
+    'EVERY well-formed operator expression e (numeric literals incl. percent and scientific form, cell references, '
+    'written parentheses, unary minus, the twelve binary operators; the grammar Spec.C02.WF carries the precedence '
+    'levels u- 7 > % > ^ 5 > * / 4 > + - 3 > & 2 > comparisons 1 and left associativity), EVERY placement of '
+    'blanks/newlines b and every assignment of numbers to the cells, evaluateFormula (render b e) = denote e env '
+    'for the statement-by-statement model of tokenizer.py, parser.py, OperatorNode/OperandNode/RangeNode.eval and '
+    'the operator functions - unbounded, by composing Props.C02.parse_render (text -> tree, character level) with '
+    'eval_denote_partial (tree -> value, induction on e) and the table obligation op_func_table over the '
+    'regenerated INFIX/PREFIX_OP_TO_FUNC maps; C01_div0; C01_parens_blanks_irrelevant (any two renderings that '
+    'differ in redundant parentheses and blanks evaluate alike, errors included); the precedence/associativity '
+    'statement itself: flat_text, wf_left_iff, wf_right_iff, flat_unique, left_assoc, neg_binds_tightest, '
+    'neg_after_operator, prec_order, C01_flat_left, C01_flat_right; kernel-checked counter-example '
+    'D3_paren_percent for the known finding. The model is tied to the running code by this differential run '
+    'through compiled models (every ordered operator pair and triple exhaustively, comparison ties, #DIV/0! '
+    'propagation, deeper trees sampled).')
 LEVEL_NOTE = (
-    'Trusted: Lean kernel (axioms propext, Classical.choice, Quot.sound), the hand-written tokenizer/parser/'
-    'operator model (validated by correspondence, not proved equal to the Python), the Spec semantics denote as '
-    'a rendering of Excel\'s grammar, IEEE double arithmetic (ideal rationals in Lean; compared within 1e-9).')
+    'PARTIAL in one respect: C01_partial carries the guard NoTextArith (no arithmetic operator or unary minus '
+    'reads a TEXT operand, i.e. (1&2)+3 is outside the theorem; texts flowing into & and into comparisons are '
+    'inside). Missing for the full statement: that the model\'s int(text) reads the decimal text of an integer '
+    'back (a fact about Nat.repr); that region is covered by the correspondence run only. denote is undef - and '
+    'nothing is claimed - where the statement is silent (text form of non-integers and booleans under &, '
+    'non-integral exponents, 0^0, non-numeric texts in arithmetic). Trusted: Lean kernel, the hand-written '
+    'tokenizer/parser/value-layer/evaluation models (validated by correspondence: 0 value or tree disagreements '
+    'on ~5e5 formulas; not proved equal to the Python), the Spec semantics denote as a rendering of Excel\'s '
+    'grammar, IEEE double arithmetic (ideal rationals in Lean; floats compared within 1e-9, rounding-sensitive '
+    'inputs excluded by the driver\'s sens flag).')
 DESIGN_REF = '§4 C01'
 
 TRUSTED = [
@@ -53,7 +68,8 @@ ASSUMPTIONS = [
     'values exceed 1e7 in magnitude are not generated (cancellation of large floats)',
     'where the statement is silent the Spec answers undef and the input is outside the domain (counted, not '
     'compared): the text form under & of a number that is not an integer by construction (after /, of a '
-    'decimal, scientific or percent literal, of a float cell) and of a boolean; a non-integral exponent; '
+    'decimal, scientific or percent literal, of a float cell) and of a boolean; a non-integral exponent; 0^0 '
+    '(Excel: #NUM!, the library and the usual convention: 1 - property C16 owns POWER); '
     'arithmetic on a text that is not a plain decimal integer (Excel and dateutil read 1-2 as a date)',
     '% only directly after a numeric literal without exponent (a reference or parenthesis followed by % is known '
     'finding D3, outside the generated grammar); scientific literals in Excel\'s normalised form d[.ddd]E+dd; '
